@@ -495,8 +495,6 @@ package genql
 // closures that complete a row the engine built (data is the fresh output row of SelectExpr, captured)
 //@ func SelectExpr$1
 //@   writes data
-//@ func SelectExpr$2
-//@   writes data
 
 // CTE entries live in the copy of the document's top level made by BuildCte (captured as data)
 //@ func BuildCte$1
@@ -547,10 +545,10 @@ package genql
 //@   unordered append(slice, out) :: join results are a multiset; the statement excludes joins from the identical-sequence claim
 
 //@ func SelectExpr
-//@   unordered append(query.postProcessors, func() error { delete(data, "<-… :: the appended post-processors are identical closures (delete of the same key of the same row): their order is immaterial
 //@   at-call mapstore@loop1 assert star-is-data[C12]: !typeis(stored, CteEvaluation)
+//@   at-call mapstore@loop1 assert star-skips-the-navigation-entry[C10,C12]: key != "<-"
 
-//@ func SelectExpr$2
+//@ func SelectExpr$1
 //@   at-call mapstore:data[name] assert slot-dereferenced[C12,C14]: !typeis(stored, *any)
 
 // ---------------------------------------------------------------------------
